@@ -1,5 +1,5 @@
 (* C02 — suggest: exact count, sticky per worker, fresh ids.  Statements only. *)
-From VZ Require Import Base.Prelude Model.Service Proofs.ServiceP Proofs.WedgeP Proofs.StickyP Proofs.ReachP.
+From VZ Require Import Base.Prelude Model.Service Proofs.ServiceP Proofs.WedgeP Proofs.StickyP Proofs.ReachP Proofs.FrameP Proofs.SuggestSpecP.
 
 (* every new trial is numbered max+1: creating it always succeeds, appends it, its id is larger than every id in the
    study and the maximum grows by exactly one (so ids increase with creation order) *)
@@ -51,5 +51,74 @@ Theorem C02_sticky_on_reachable_states : forall ops k n c count po,
 Proof. exact sticky_reachable. Qed.
 Print Assumptions C02_sticky_on_reachable_states.
 
-(* PARTIAL: the three-source order (own ACTIVE, queued REQUESTED, new) and the queueing of surplus suggestions are decided by
-   correspondence + monitor: the loops of SuggestTrials are modelled and executed, their effect is not yet stated as a theorem. *)
+(* THE FUNCTIONAL THEOREM.  On a state where the study is active, the asking worker has no unfinished operation, its
+   operations are numbered 1..m and trial ids are unique, SuggestTrials (any count, any Pythia answer of the suggest kind)
+   ends normally with a finished operation of that worker such that:
+   - every returned trial is ACTIVE and owned by the asking worker;
+   - unless the operation carries the error flag, it returns exactly min(count, own ACTIVE + queued REQUESTED + delivered)
+     trials, and they are the first `count` of: the worker's own ACTIVE trials (stored order), then the queued REQUESTED
+     trials (last queued first) re-assigned to the worker, then new trials numbered max+1, max+2, ... (last suggestion first);
+   - every trial stored before is still stored, unchanged up to metadata, unless it was REQUESTED and has been assigned to
+     the asking worker (and is then among the returned trials): no ACTIVE trial ever changes owner. *)
+Theorem C02_suggest_functional : forall s k n c count po, suggest_ready s k n c -> not_decide po ->
+  exists s' o n', step s (SuggestTrials k c count, po) = (s', Done (RpOp o)) /\ get_node k (nodes s') = Some n' /\
+    o_done o = true /\ o_client o = c /\
+    Forall (fun t => t_state t = ACTIVE /\ t_client t = c) (o_trials o) /\
+    (o_err o = false ->
+       length (o_trials o) = Nat.min count (length (mine_of c (n_trials n)) + length (pool_of (n_trials n)) + length (sugs_of po)) /\
+       o_trials o = firstn count (mine_of c (n_trials n) ++ map (activate c) (rev (pool_of (n_trials n))) ++
+                                  mk_new ACTIVE c (max_id (n_trials n)) (rev (sugs_of po)))) /\
+    (forall t, In t (n_trials n) -> exists t', get_trial (t_id t) (n_trials n') = Some t' /\
+       (same_core t t' \/ (t_state t = REQUESTED /\ same_core (activate c t) t' /\ (o_err o = false -> In (activate c t) (o_trials o))))).
+Proof. exact suggest_clauses. Qed.
+Print Assumptions C02_suggest_functional.
+
+(* SURPLUS IS QUEUED, IDS ARE FRESH AND INCREASING.  When own + queued trials do not cover the request and the algorithm's
+   answer is accepted, the stored trials afterwards are the old ones (same ids, same order) followed by exactly one new trial
+   per suggestion - none is dropped: those not handed out are stored REQUESTED and unowned -, and the new ids are
+   max+1, max+2, ..., max+|suggestions| in creation order (hence larger than every earlier id: C02_new_ids_above). *)
+Theorem C02_surplus_queued_and_ids_fresh : forall s k n c count sugs smd tmd, suggest_ready s k n c ->
+  length (mine_of c (n_trials n)) + length (pool_of (n_trials n)) < count ->
+  exists s' o n', step s (SuggestTrials k c count, PDeliver sugs smd tmd) = (s', Done (RpOp o)) /\ get_node k (nodes s') = Some n' /\
+    (o_err o = false ->
+      exists base news rems,
+        n_trials n' = (base ++ news) ++ rems /\ map t_id base = map t_id (n_trials n) /\
+        o_trials o = (mine_of c (n_trials n) ++ map (activate c) (rev (pool_of (n_trials n)))) ++ news /\
+        Forall (fun t => t_state t = REQUESTED /\ t_client t = 0%N) rems /\
+        map t_params news ++ rev (map t_params rems) = rev sugs /\
+        map t_id (news ++ rems) = ids_from (max_id (n_trials n)) (length sugs)).
+Proof. exact suggest_surplus. Qed.
+Print Assumptions C02_surplus_queued_and_ids_fresh.
+
+Theorem C02_new_ids_above : forall ts n id old, In id (ids_from (max_id ts) n) -> In old ts -> (t_id old < id)%N.
+Proof. exact fresh_ids_above. Qed.
+Print Assumptions C02_new_ids_above.
+
+Theorem C02_new_ids_increase : forall n m, Sorted.StronglySorted N.lt (ids_from m n).
+Proof. exact ids_from_sorted. Qed.
+Print Assumptions C02_new_ids_increase.
+
+(* the hypotheses other than "study active" and "no unfinished operation of this worker" hold on every reachable state *)
+Theorem C02_ready_on_reachable_states : forall ops k n c, let s := run_all ops init_state in
+  get_node k (nodes s) = Some n -> immutable (n_study n) = false ->
+  (forall o, In o (filter (fun o => N.eqb (o_client o) c) (n_ops n)) -> o_done o = true) ->
+  suggest_ready s k n c.
+Proof. exact reachable_ready. Qed.
+Print Assumptions C02_ready_on_reachable_states.
+
+(* worked instance (kernel-evaluated): two workers, over-delivery, queued trials handed to the second worker *)
+Theorem C02_worked_instance :
+  let ops := [(CreateStudy 1 1 false (mkS SS_ACTIVE [(1%N, true)] []), PFail EOther);
+              (SuggestTrials (1, 1)%N 1 1, PDeliver [10%N; 11%N; 12%N] [] []);
+              (SuggestTrials (1, 1)%N 2 3, PDeliver [20%N; 21%N] [] [])] in
+  let s := run_all ops init_state in
+  match get_node (1, 1)%N (nodes s) with
+  | Some n => map (fun t => (t_id t, t_state t, t_client t, t_params t)) (n_trials n)
+  | None => []
+  end = [(1, ACTIVE, 1, 12); (2, ACTIVE, 2, 10); (3, ACTIVE, 2, 11); (4, ACTIVE, 2, 21); (5, REQUESTED, 0, 20)]%N.
+Proof. exact suggest_worked_instance. Qed.
+Print Assumptions C02_worked_instance.
+
+(* PARTIAL: that the handler program is the code (incl. the order in which the datastores list trials) is decided by the
+   trace-level correspondence + monitor over generated histories; client-side polling (vizier_client.get_suggestions) by the
+   monitor only. *)
